@@ -409,6 +409,13 @@ fn degenerate() -> Vec<String> {
     v.push("int(a) == -٣".to_string());
     v.push("-٣".to_string());
     v.push("2²".to_string());
+    // a complete expression followed by left-over tokens whose rendering is long and multi-byte
+    for off in 0..4usize {
+        v.push(format!("A) {}{}", "a".repeat(off), "répété ".repeat(40)));
+        v.push(format!("count) {}{}", "a".repeat(off), "日本語 ".repeat(30)));
+        v.push(format!("A) int(f{}{}) == 1", "a".repeat(off), "日本語".repeat(40)));
+        v.push(format!("(A)) {}{}", "a".repeat(off), "é".repeat(300)));
+    }
     v.push("?".to_string() + &"(a*)*".repeat(40));
     v.push("?".to_string() + &"a{1000}".repeat(4));
     v.push("?(".to_string());
